@@ -644,8 +644,16 @@ def fixture_worlds(rng, tier):
                                "inner_seed": 0 if k is None else 7, "klass": None, "shape": {}})
         # one world per state: the literals of these states are large, separate worlds land in separate (parallel) shards
         for si in range(len(states)):
+            mine = [dict(p, state=0) for p in probes if p["state"] == si]
+            # one Operator object applied twice in a row (forced), for the first call probed in this state (small domains
+            # only: the states of the others have ~1000 facts)
+            seqs = []
+            if mine and not job["big"]:
+                p0 = mine[0]
+                seqs.append({"action": p0["action"], "args": p0["args"], "start": 0, "perm": None, "uperm": None, "inner_seed": 0,
+                             "kind": "chain", "steps": [{"src": None, "allow": True}, {"src": None, "allow": True}], "shape": {}})
             out.append({"domain_text": res["domain_text"], "objects": [tuple(x) for x in res["objects"]], "states": [states[si]],
-                        "problem_texts": [ptexts[si]], "probes": [dict(p, state=0) for p in probes if p["state"] == si],
+                        "problem_texts": [ptexts[si]], "probes": mine, "seqs": seqs,
                         "stream": "fixture:" + job["name"], "features": ["fixture"], "witness_of": None, "compact": False})
     return out
 
